@@ -294,6 +294,8 @@ def struct_variants(s, defs, sizes=CONTAINER_SIZES, strlens=STRLENS, salt=0):
     basev = base_value(t, defs, 3, salt)
     yield "base", basev
     yield "zero", zero_struct(s, defs)
+    if defs[s].get("init"):
+        yield "alldefault", default_struct(s, defs)
     zv = zero_struct(s, defs)
     if defs[s].get("unk"):
         for which in ([0], [1, 2], [3, 4, 5, 6, 7], list(range(8)) * 3):
@@ -482,6 +484,17 @@ def universe_fields():
     f = field(i, "default", T("string")); f["def"] = list(b"dd"); fs.append(f); i += 1
     f = field(i, "optional", T("i64", True)); f["def"] = {"p": 1, "v": [0] * 7 + [5]}; fs.append(f); i += 1          # non-nil pointer default
     defs["Defaults"] = struct(fs, init=True)
+    # only fixed-size, non-optional fields plus the holder (every size shortcut applies; the holder must still count)
+    defs["FixUnk"] = struct([field(1, "default", T("i32")), field(2, "required", T("i64")), field(3, "default", T("bool")),
+                             field(4, "default", T("double"))], unk=True)
+    defs["FixUnkNest"] = struct([field(1, "default", ST("FixUnk", False)), field(2, "default", L(ST("FixUnk", False))),
+                                 field(3, "default", M(T("string"), ST("FixUnk", True))), field(4, "default", L(ST("FixUnk", True)))])
+    # the last fields (by id) are optional non-pointer fields with declared defaults
+    dl = [field(1, "default", T("i32")), field(300, "optional", T("i32")), field(301, "optional", T("string")), field(65535, "optional", T("i64"))]
+    dl[1]["def"] = [0, 0, 0, 7]
+    dl[2]["def"] = list(b"tail")
+    dl[3]["def"] = [0] * 7 + [1]
+    defs["DefLast"] = struct(dl, init=True)
     # field ids on both sides of presence-set word boundaries
     ids = [0, 1, 63, 64, 65, 127, 128, 255, 256, 1023, 1024, 32767, 32768, 65534]
     defs["Ids"] = struct([field(x, ["required", "default", "optional"][j % 3],
@@ -492,6 +505,20 @@ def universe_fields():
                            field(5, "default", ST("Defaults", True)), field(6, "default", ST("LeafUnk", False)),
                            field(7, "default", L(ST("Defaults", True))), field(8, "default", M(T("string"), ST("Defaults", True))),
                            field(9, "default", L(ST("LeafUnk", True)))], unk=True)
+    # optional structs held by value (always written: there is no nil to test)
+    defs["OptVal"] = struct([field(1, "optional", ST("Leaf", False)), field(2, "optional", ST("Fix", False)),
+                             field(3, "optional", ST("LeafReq", False)), field(4, "default", T("i8"))])
+    # single-field structs (Go stores a one-word struct directly in an interface value)
+    defs["OnePtr"] = struct([field(1, "default", ST("Leaf", True))])
+    defs["OneMap"] = struct([field(1, "default", M(T("string"), T("i32")))])
+    defs["OneOptPtr"] = struct([field(1, "optional", T("i64", True))])
+    defs["OneStr"] = struct([field(1, "default", T("string"))])
+    defs["OneI64"] = struct([field(1, "required", T("i64"))])
+    # the same Go type under schemas that differ only deep inside the annotation; both orders of first use
+    defs["Dp1_a_lll"] = struct([field(1, "default", L(L(L(T("i32"))))), field(2, "default", M(T("string"), L(L(T("string")))))])
+    defs["Dp1_b_lls"] = struct([field(1, "default", L(L(SET(T("i32"))))), field(2, "default", M(T("string"), L(SET(T("string")))))])
+    defs["Dp2_a_sls"] = struct([field(1, "default", SET(L(SET(T("i64"))))), field(2, "default", L(M(T("i32"), SET(T("i16")))))])
+    defs["Dp2_b_sll"] = struct([field(1, "default", SET(L(L(T("i64"))))), field(2, "default", L(M(T("i32"), L(T("i16")))))])
     # containers of containers
     defs["Deep"] = struct([field(1, "default", M(T("string"), L(SET(T("i64"))))),
                            field(2, "default", L(M(T("i32"), L(T("string"))))),
